@@ -156,6 +156,7 @@ func checkSet(powers []int64, cfg rotCfg, deadline func() bool) (sr *setResult) 
 
 	// --- single steps against the reference (also part 4: totals and priorities saturate) ---
 	total := cfg.maxStart + cfg.maxTotal
+	total_ := total
 	singles := make([]rstate, total+1)
 	seen := map[rstate]struct{}{}
 	s := build()
@@ -224,6 +225,46 @@ func checkSet(powers []int64, cfg rotCfg, deadline func() bool) (sr *setResult) 
 		}
 		if rotState(c) != singles[m+1] {
 			sr.add(keyCopyDiv, fmt.Sprintf("set %s after %d steps: Copy()+IncrementAccum(1) gives %s, the original gives %s", desc, m, rotState(c).str(n), singles[m+1].str(n)), rp(map[string]interface{}{"single_steps": m}))
+		}
+	}
+
+	// --- cold twins (cold.go): the set a restarted node holds at every start state — decoded, Copy() of decoded,
+	// struct literal — must report the same total and rotate exactly like the set that stayed in memory; looked at
+	// in two orders (total first / rotation first) ---
+	for m := 0; m <= cfg.maxStart; m++ {
+		base := build()
+		for j := 0; j < m; j++ {
+			base.IncrementAccum(1)
+		}
+		sr.calls += m
+		for kind := relDecoded; kind <= relLiteral; kind++ {
+			for order := 0; order < 2; order++ {
+				c := reloadFast(kind, base)
+				if rotState(c) != singles[m] {
+					sr.add(keyReloadDiff, fmt.Sprintf("set %s after %d steps, %s: %s, in memory %s", desc, m, kind, rotState(c).str(n), singles[m].str(n)), rp(map[string]interface{}{"single_steps": m, "reload": kind.String()}))
+					continue
+				}
+				total := func() {
+					if got, want := c.TotalVotingPower(), ref.total(); got != want {
+						sr.add(keyLazyTotal, fmt.Sprintf("set %s after %d steps, %s: TotalVotingPower()=%d, in memory %d", desc, m, kind, got, want), rp(map[string]interface{}{"single_steps": m, "reload": kind.String()}))
+					}
+				}
+				if order == 0 {
+					total()
+				}
+				for j := 1; j <= coldRotations && m+j <= total_; j++ {
+					c.IncrementAccum(1)
+					sr.calls++
+					if got := rotState(c); got != singles[m+j] {
+						sr.add(keyLazyRot, fmt.Sprintf("set %s after %d steps, %s: rotation #%d gives %s, the set that stayed in memory %s", desc, m, kind, j, got.str(n), singles[m+j].str(n)),
+							rp(map[string]interface{}{"single_steps": m, "reload": kind.String()}))
+						break
+					}
+				}
+				if order == 1 {
+					total()
+				}
+			}
 		}
 	}
 
